@@ -169,4 +169,18 @@ PROPS = {
         "thorough": {"cases": 12000, "shards": 16, "shrinktime": "120s", "timeout_s": 3000},
         "assumptions": RUN_ASSUME,
     },
+    "C15": {
+        "test": "TestC15", "binary": "sched", "level": "exploration",
+        "rule": "tag-heavy generated programs: trees of !wait-optional / !soft-optional / !oneof / !ordisabled placed in step `any` inputs and "
+                "workflow outputs, nested in maps and lists, several per object, one-of options that themselves contain tags; sources with every "
+                "outcome (success / error / alt / crash / schema-violating output / disabled / deployment failure) and generated delays; in a third of "
+                "the cases the soft-optional motif (the source can finish only after the consumer started). oracle: logged consumer inputs and the "
+                "returned output equal the reference (wait-optional present iff produced, soft-optional absent-or-equal, one-of = data of a produced "
+                "option + discriminator, or-disabled = result or disabled message); a wait-optional consumer starts only after its source's "
+                "execution ended; in the motif the consumer starts before the source ends. non-trivial = a tag whose source did not succeed, "
+                "several tags in one object, or the motif",
+        "quick": {"cases": 1200, "shards": 12, "shrinktime": "30s"},
+        "thorough": {"cases": 20000, "shards": 16, "shrinktime": "120s", "timeout_s": 3000},
+        "assumptions": RUN_ASSUME + ["events after the run began shutting down are not judged"],
+    },
 }
